@@ -67,6 +67,10 @@ class NPProxy:
         return _np.array(a, dtype=dtype, **k)
 
     def asarray(self, a, dtype=None, **k):
+        if getattr(dtype, "_symfloat", False):
+            dtype = float
+        if isinstance(a, SArr) and dtype in (None, float, object):
+            return a          # numpy's asarray does not copy an ndarray (a symbolic array "is" a float array in the model)
         if isinstance(a, _np.ndarray) and (dtype is None or a.dtype == dtype):
             return a          # numpy's asarray does not copy an ndarray: aliasing is part of the semantics
         return self.array(a, dtype=dtype)
